@@ -13,6 +13,7 @@
 
 #include <algorithm>
 #include <array>
+#include <bitset>
 #include <chrono>
 #include <map>
 #include <memory>
@@ -51,6 +52,8 @@ template <class T> struct is_oset : std::false_type {};
 template <class K, class C, class A> struct is_oset<std::set<K, C, A>> : std::true_type {};
 template <class T> struct is_uset : std::false_type {};
 template <class K, class H, class E, class A> struct is_uset<std::unordered_set<K, H, E, A>> : std::true_type {};
+template <class T> struct is_bitset : std::false_type {};
+template <std::size_t N> struct is_bitset<std::bitset<N>> : std::true_type {};
 template <class T, class S, class = void> struct has_ser : std::false_type {};
 template <class T, class S>
 struct has_ser<T, S, std::void_t<decltype(std::declval<T&>().serializeOp(std::declval<S&>()))>> : std::true_type {};
@@ -120,6 +123,8 @@ public:
             out.arr();
             const_cast<U&>(data).serializeOp(*this);
             out.end_arr();
+        } else if constexpr (sd::is_bitset<U>::value) {
+            out.str(data.to_string());
         } else if constexpr (std::is_same_v<U, std::string>) {
             out.str(data);
         } else if constexpr (std::is_same_v<U, bool>) {
